@@ -181,10 +181,6 @@ end Kopf.C20
 namespace Kopf.C20
 
 /-- in its `finally:` -/
-def TS.isStopping : TS → Bool
-  | .stopping _ _ => true
-  | _ => false
-
 @[simp] theorem TS.isStopping_stopping (f : Bool) (d : Option Nat) : TS.isStopping (.stopping f d) = true := rfl
 @[simp] theorem TS.isStopping_running : TS.isStopping .running = false := rfl
 @[simp] theorem TS.isStopping_waitingFlag : TS.isStopping .waitingFlag = false := rfl
